@@ -448,13 +448,23 @@ def _mutants():
         M("props-swapped", I, "pad = torch.stack([prop[0] * in_lens_, prop[1] * in_lens_])", "pad = torch.stack([prop[1] * in_lens_, prop[0] * in_lens_])", "pad=trunc(rand*prop*len)"),
         M("out-lens-one-side", I, "out_lens = in_lens + pad.sum(0)", "out_lens = in_lens + pad[0]", "out_lens"),
         M("right-pad-from-start", P, "right_pad = (end - lens).clamp_min_(0).masked_fill_(empty, 0)", "right_pad = (end - start).clamp_min_(0).masked_fill_(empty, 0)", "_get_padding_buffers-binding"),
+        M("start-clamped-to-T", P, "start_ = start.clamp_min(0)", "start_ = start.clamp(0, T)", "slice-arithmetic[reflect-tail"),
+        M("end-not-clamped", P, "end_ = torch.min(end, lens)", "end_ = end", "slice-arithmetic[kept-elements]"),
+        M("chunk-lens-unclamped", P, "chunk_lens = (end - start).clamp_min_(0)", "chunk_lens = end - start", "slice-arithmetic[chunk-lens]"),
+        M("empty-slices-still-padded", P, "left_pad = (-start).clamp_min_(0).masked_fill_(empty, 0)", "left_pad = (-start).clamp_min_(0)", "slice-arithmetic[left-pad]"),
+        M("mid-mask-forgets-left", P, "mid_mask = ((left_pad + slice_lens).unsqueeze(1) > arange[:Tp])", "mid_mask = (slice_lens.unsqueeze(1) > arange[:Tp])", "slice-arithmetic[kept-positions]"),
+        M("tail-source-off-by-one", P, "((left_pad + slice_lens + offset).unsqueeze(1) <= arange[:Tp])", "((left_pad + slice_lens + offset).unsqueeze(1) < arange[:Tp])", "slice-arithmetic[reflect-tail-source]"),
+        M("pair-prop-unreachable", I, "except (TypeError, ValueError):", "except TypeError:", "handler-matches-raiser"),
+        M("twin:offset-from-raw-start", P, "offset = (start_ - lens).clamp_min_(0)", "offset = (start - lens).clamp_min_(0)", "", twin=True),
+        M("twin:relu-for-clamp", P, "slice_lens = (end_ - start_).clamp_min(0)", "slice_lens = torch.relu(end_ - start_)", "", twin=True),
+        M("twin:max-for-clamp", P, "start_ = start.clamp_min(0)", "start_ = torch.max(start, torch.zeros_like(start))", "", twin=True),
         M("twin:rename-left-max", P, "left_max", "lmax", "", -1, twin=True),
     ]
 
 
 def selftest(ctx: Ctx):
     from selftest.mutate import run_selftest
-    return run_selftest("C09", ctx.pkg.repo, _mutants(), floor=12)
+    return run_selftest("C09", ctx.pkg.repo, _mutants(), floor=18)
 
 
 MANIFEST = dict(
